@@ -25,6 +25,7 @@ type memFS struct {
 }
 
 type fileHandle struct {
+	std    bool // stdin/stdout/stderr of the model: no generation check
 	path   string
 	f      *memFile
 	pos    int
@@ -64,12 +65,40 @@ func (fs *memFS) clone() *memFS {
 	return n
 }
 
+var (
+	stdinFile   *memFile
+	stdinHandle *fileHandle
+)
+
+// installStdStreams points os.Stdin/Stdout/Stderr (whose package init is not run)
+// at model handles.
+func (i *interpreter) installStdStreams() {
+	osPkg := i.prog.ImportedPackage("os")
+	if osPkg == nil {
+		return
+	}
+	stdinFile = &memFile{}
+	stdinHandle = &fileHandle{std: true, path: "/dev/stdin", f: stdinFile}
+	mk := func(name string, h *fileHandle) {
+		g := osPkg.Var(name)
+		if g == nil {
+			return
+		}
+		var cell value = h
+		*i.globals[g] = &cell
+	}
+	mk("Stdin", stdinHandle)
+	mk("Stdout", &fileHandle{std: true, path: "/dev/stdout", f: &memFile{}, app: true})
+	mk("Stderr", &fileHandle{std: true, path: "/dev/stderr", f: &memFile{}, app: true})
+}
+
 func resetEnvModels() {
 	fsys = newMemFS()
 	fsGen = 0
 	fsSnaps = nil
 	errNotExist, errExist, errClosed = nil, nil, nil
 	resetSched()
+	syncMaps = map[*value]*omap{}
 }
 
 func mkError(i *interpreter, msg string) value {
@@ -132,7 +161,7 @@ func (h *fileHandle) check(i *interpreter) value {
 	if h.closed {
 		return sentinel(i, &errClosed, "file already closed")
 	}
-	if h.gen != fsGen {
+	if h.gen != fsGen && !h.std {
 		panic(pathEnd{"harness-error", "file handle used across a file-system restore: " + h.path})
 	}
 	return nil
@@ -294,6 +323,46 @@ func init() {
 			h.pos += n
 			return tuple{n, iface{}}
 		},
+		"(*os.File).Fd": func(fr *frame, args []value) value {
+			switch handleOf(args[0]).path {
+			case "/dev/stdin":
+				return uintptr(0)
+			case "/dev/stdout":
+				return uintptr(1)
+			case "/dev/stderr":
+				return uintptr(2)
+			}
+			return uintptr(3)
+		},
+		// golang.org/x/term on the model terminal
+		"golang.org/x/term.IsTerminal": func(fr *frame, args []value) value { return asInt64(args[0]) <= 2 },
+		"golang.org/x/term.MakeRaw": func(fr *frame, args []value) value {
+			return tuple{(*value)(nil), iface{}}
+		},
+		"golang.org/x/term.Restore": func(fr *frame, args []value) value { return iface{} },
+		"(*os.File).Seek": func(fr *frame, args []value) value {
+			h := handleOf(args[0])
+			if e := h.check(fr.i); e != nil {
+				return tuple{int64(0), e}
+			}
+			off := int(asInt64(args[1]))
+			var base int
+			switch int(asInt64(args[2])) {
+			case 0: // io.SeekStart
+			case 1: // io.SeekCurrent
+				base = h.pos
+			case 2: // io.SeekEnd
+				base = len(h.f.data)
+			default:
+				return tuple{int64(0), mkError(fr.i, "seek: invalid whence")}
+			}
+			if base+off < 0 {
+				return tuple{int64(0), mkError(fr.i, "seek: invalid argument")}
+			}
+			// (writes through a handle opened with O_APPEND go to the end regardless: see Write)
+			h.pos = base + off
+			return tuple{int64(h.pos), iface{}}
+		},
 		"(*os.File).Truncate": func(fr *frame, args []value) value {
 			h := handleOf(args[0])
 			if e := h.check(fr.i); e != nil {
@@ -399,6 +468,13 @@ func callVerifEnv(fr *frame, name string, args []value) (value, bool) {
 			}
 		}
 		fsCache[key] = fsys.clone()
+		return nil, true
+	case "verifConsoleIO":
+		// the process's terminal: stdin delivers the given bytes and then end of
+		// file; what is written to stdout/stderr is dropped
+		stdinFile.data = append([]value(nil), args[0].([]value)...)
+		stdinHandle.pos = 0
+		call(fr.i, fr, token.NoPos, args[1], nil)
 		return nil, true
 	case "verifFSFileLen":
 		p := cleanPath(goString(args[0]))
